@@ -48,7 +48,15 @@ def small_cnf(draw):
     m = max(1, int(n * ratio))
     minlen = 0 if draw(st.integers(0, 24)) == 0 else 1
     clauses = draw(st.lists(st.lists(lit, min_size=minlen, max_size=5), min_size=0 if draw(st.integers(0, 30)) == 0 else 1, max_size=m))
-    return {"family": "small", "clauses": clauses, "assumptions": draw(assumptions_for(vs)), "opts": draw(options())}
+    opts = draw(options())
+    ass = draw(assumptions_for(vs))
+    # solve_sat works over variables 1..max id, so a sparse numbering enlarges the model space: keep full
+    # enumerations (solution_limit 10^6) to <= 2^10 models, otherwise the call is legitimately long (work is
+    # bounded by solution_limit, not a hang) and would trip the step budget of C02
+    top = max([abs(l) for c in clauses for l in c] + [abs(a) for a in ass] + [0])
+    if top > 10 and opts["solution_limit"] > 100:
+        opts = dict(opts, solution_limit=100)
+    return {"family": "small", "clauses": clauses, "assumptions": ass, "opts": opts}
 
 
 @st.composite
